@@ -117,8 +117,8 @@ def eval_images_doc(doc, mode="fresh"):
     import productmd.images as pi
     im = pi.Images()
     if mode == "reused":
-        im.loads(json.dumps({"header": {"type": "productmd.images", "version": "1.2"},
-                             "payload": {"compose": dict(COMPOSE), "images": {}}}))
+        first = images_doc([["Zother", {"x86_64": 1, "i386": None, "src": None}]], "1.2")     # (a current manifest WITH an image: add() runs)
+        im.loads(json.dumps(first))
         r = call(im.loads, json.dumps(doc))
     elif mode == "second-consumer":
         parsed = json.loads(json.dumps(doc))
@@ -128,7 +128,7 @@ def eval_images_doc(doc, mode="fresh"):
         r = call(im.loads, json.dumps(doc))
     if r[0] != "ok":
         return {"load": r[1]}
-    cells = B.observe(im)["cells"]
+    cells = {v: c for v, c in B.observe(im)["cells"].items() if v != "Zother"}
     w = call(im.dumps)
     dumped_keys = None
     if w[0] == "ok":
@@ -140,9 +140,9 @@ def eval_images_doc(doc, mode="fresh"):
 # ---- (iii) rpms 0.3 documents -------------------------------------------------------------------
 
 NEVR = {"p": ("pkg-p", "0:1.0-1"), "q": ("q-lib", "2:3.1-4.el7")}
-SRPMS = {k: "%s-%s.src" % v for k, v in NEVR.items()}
+SRPMS = {"p": "pkg-p-0:1.0-1.src", "q": "q-lib-2:3.1-4.el7.nosrc"}             # (q is a nosrc source package)
 # how the document spells the source package q (both in the binary tables and in the src table): zero-padded epoch + '.rpm'
-SPELLED = {"p": SRPMS["p"], "q": "q-lib-02:3.1-4.el7.src.rpm"}
+SPELLED = {"p": SRPMS["p"], "q": "q-lib-02:3.1-4.el7.nosrc.rpm"}
 
 
 def rpms_variant_layouts():
